@@ -775,6 +775,9 @@ impl World {
                     }
                     Ok(Err(e)) => {
                         self.fail("C13.d", format!("rt-msk: own serialisation rejected: {e}"));
+                        if self.model.st.dims.values().any(|d| d.attrs.iter().any(|a| a.disabled)) {
+                            self.fail("C06.r", format!("rt-msk: a master key holding a disabled attribute cannot be reloaded ({e}): no public key can be produced from it after serialisation and no user key refreshed"));
+                        }
                         ok = false;
                     }
                     Err(_) => {
@@ -1056,11 +1059,17 @@ impl World {
         if w.sig.is_none() {
             self.fail("C08.s", format!("{what}: new key is not signed"));
         }
-        let mut held = BTreeMap::new();
+        // what the key MUST hold stays expected even if it is missing, and rights its policy does
+        // not give are not adopted: the decaps matrix then shows the consequence under the clause
+        // of the property being checked; older secrets of its own rights are adopted
+        let mut held = want.clone();
         for (r, vs) in got {
-            let v: Vec<Ver> = vs.into_iter().flatten().collect();
-            if !v.is_empty() {
-                held.insert(r, v);
+            if let Some(e) = held.get_mut(&r) {
+                for v in vs.into_iter().flatten() {
+                    if !e.contains(&v) {
+                        e.push(v);
+                    }
+                }
             }
         }
         self.usks[k].model.held = held;
